@@ -51,3 +51,59 @@ impl VringT<GM<()>> for KVring {
     fn set_call(&self, f: Option<File>) { self.s().set_call(f) }
     fn set_err(&self, f: Option<File>) { self.s().set_err(f) }
 }
+
+// ------------------------------------------------------------------ obligations on the real VringState
+use crate::handler::verif_kani::ledger_drop;
+use vm_memory::{GuestMemoryAtomic, GuestMemoryMmap};
+
+pub(crate) static mut NOTIFIED: usize = 0;
+pub(crate) static mut NOTIFIED_FD: i32 = -1;
+fn stub_notify(n: &EventNotifier) -> Result<(), io::Error> { unsafe { NOTIFIED += 1; NOTIFIED_FD = n.as_raw_fd(); } Ok(()) }
+static mut CLOSED_FDS: [i32; 4] = [-1; 4];
+static mut N_CLOSED: usize = 0;
+fn ledger2(fd: &mut std::os::fd::OwnedFd) { unsafe { if N_CLOSED < 4 { CLOSED_FDS[N_CLOSED] = fd.as_raw_fd(); } N_CLOSED += 1; } }
+fn closed(fd: i32) -> usize { unsafe { let c = |i: usize| (i < N_CLOSED && CLOSED_FDS[i] == fd) as usize; c(0) + c(1) + c(2) + c(3) } }
+
+// C14: used buffers are signalled on the call descriptor most recently installed for the ring; nothing happens when none is installed
+#[kani::proof]
+#[kani::stub(vmm_sys_util::event::EventNotifier::notify, stub_notify)]
+#[kani::stub(<std::os::fd::OwnedFd as std::ops::Drop>::drop, ledger2)]
+#[kani::unwind(4)]
+fn c14_signal_used_queue_uses_latest_call_fd() {
+    let mem: GM<()> = GuestMemoryAtomic::new(GuestMemoryMmap::<()>::new());
+    let v = KVring::make(mem.clone(), 256);
+    let n: u8 = kani::any();
+    kani::assume(n <= 2);
+    if n >= 1 { v.set_call(Some(unsafe { File::from_raw_fd(201) })); }
+    if n >= 2 { v.set_call(Some(unsafe { File::from_raw_fd(202) })); }
+    let clear: bool = kani::any();
+    if clear { v.set_call(None); }
+    unsafe { NOTIFIED = 0; }
+    let r = v.signal_used_queue();
+    assert!(r.is_ok());
+    unsafe {
+        if n == 0 || clear { assert!(NOTIFIED == 0); }
+        else { assert!(NOTIFIED == 1 && NOTIFIED_FD == if n == 2 { 202 } else { 201 }); }
+    }
+    core::mem::forget(v); core::mem::forget(mem);
+}
+
+// C09: a descriptor handed to set_kick / set_call / set_err is owned by the ring (into_raw_fd -> from_raw_fd keeps the number, nothing
+// is closed at that point); it is closed exactly once when it is replaced or cleared
+#[kani::proof]
+#[kani::stub(<std::os::fd::OwnedFd as std::ops::Drop>::drop, ledger2)]
+#[kani::unwind(4)]
+fn c09_vring_fd_ownership() {
+    let mem: GM<()> = GuestMemoryAtomic::new(GuestMemoryMmap::<()>::new());
+    let v = KVring::make(mem.clone(), 256);
+    let which: u8 = kani::any();
+    kani::assume(which < 3);
+    let set = |f: Option<File>| match which { 0 => v.set_kick(f), 1 => v.set_call(f), _ => v.set_err(f) };
+    set(Some(unsafe { File::from_raw_fd(201) }));
+    assert!(unsafe { N_CLOSED } == 0);
+    let cur = match which { 0 => v.kick_fd(), 1 => v.call_fd(), _ => v.s().err.as_ref().map(|e| e.as_raw_fd()) };
+    assert!(cur == Some(201));
+    if kani::any() { set(Some(unsafe { File::from_raw_fd(202) })); } else { set(None); }
+    assert!(closed(201) == 1 && unsafe { N_CLOSED } == 1 && closed(202) == 0);
+    core::mem::forget(v); core::mem::forget(mem);
+}
